@@ -113,7 +113,9 @@ def pipeline_groups(k, seed, maxn=8):
     """groups of 2-3 call trees, each under its own workflow name with its own prior-information / rename maps, to be
     sequenced in ONE run of the real otel_to_pv whose configuration holds the maps per workflow name (the asynchronous
     flag is one setting of the run, so the trees of a group share it)"""
-    base = random_cases(3 * k, seed + 7919, maxn=maxn)
+    # only trees whose sequencing depends on their maps, so that a map looked up under the wrong workflow shows
+    base = [c for c in random_cases(12 * k, seed + 7919, maxn=maxn) if c["grp"] and any(
+        c["ty"][c["par"][i] - 1] == g[0] and c["ty"][i] == g[1] for g in c["grp"] for i in range(1, c["n"]))]
     by = {False: [c for c in base if not c["async"]], True: [c for c in base if c["async"]]}
     out = []
     rnd = random.Random(repr(("c08p", seed)))
